@@ -43,7 +43,7 @@ theorem exact_summary_spec {α : Type} [LinearOrder α] [Val α] [LawfulVal α] 
   | cons v0 rest =>
     simp only at hs
     have spec := modeScan_spec rest [v0] v0 1 v0 1 (by simpa using hs) (by simp) (by simp) (by simp) (by simp)
-      (le_refl 1)
+      (Nat.le_refl 1)
       (by intro x; simp only [List.count_cons, List.count_nil]; split <;> omega)
       (by
         intro x hx
@@ -82,7 +82,8 @@ theorem exact_summary_spec {α : Type} [LinearOrder α] [Val α] [LawfulVal α] 
       · rintro ⟨x, hx, y, hy, hxy⟩ hw
         have hlen : (Exact.modeScan v0 1 v0 1 rest).2 = (v0 :: rest).length := by
           by_contra hne'
-          simp [hne'] at hw
+          simp at hw
+          exact hne' (by simpa using hw)
         rw [h1] at hlen
         have hall := List.count_eq_length.mp hlen
         exact hxy ((hall x hx).symm.trans (hall y hy))
